@@ -97,7 +97,7 @@ Spec == Init /\ [][Next]_vars
 \* type parameters that occur only in ignored / method-handled / unused fields are never constrained:
 \* if no delegated field mentions a parameter, the verdict does not depend on it
 Mentions(ty, x) ==
-  CASE x = "T" -> ty \in {"T", "WrapT", "PairTU"} [] OTHER -> ty \in {"U", "PairTU"}
+  CASE x = "T" -> ty \in {"T", "WrapT", "PairTU", "ArrT", "Arr0T"} [] OTHER -> ty \in {"U", "PairTU"}
 RECURSIVE AllDelegated(_, _)
 AllDelegated(c, t) == Delegated(c, t) \cup UNION { AllDelegated(c, s) : s \in { s \in Supers(c, t) : HasTrait(c, s) } }
 UnconstrainedWhenUnused ==
